@@ -169,7 +169,7 @@ static inline void *psDynBufAppendOctets(psDynBuf_t *db, const void *data,
 {
     void *loc = psDynBufAppendSize(db, len);
 
-    if (loc)
+    if (loc && len > 0)
     {
         Memcpy(loc, data, len);
     }
